@@ -1,13 +1,171 @@
-import Ruint.Model.History
-import Ruint.Lemmas.Basic
+import Ruint.Lemmas.History
+import Ruint.Gen.GuardGraph
 
-/-! # C04 — canonical values (property theorems; under construction) -/
+/-!
+# C04 — values stay canonical; `==`, `Hash`, `Ord` follow the number; ill-formed types are empty
+
+Property theorems only, about the model functions the correspondence driver executes
+(`Model/Canon.lean`, `Model/Cmp.lean`, `Model/History.lean`). All widths.
+
+* (i)   `==`/`Hash` are functions of the limb array and canonical arrays are determined by their number;
+* (ii)  `cmp`/`<`/`<=`/`min`/`max` (the reverse limb scan of `algorithms::cmp`) order by the number;
+* (iii) constructors: `from_limbs` panics iff out of range, the `*_from_limbs_slice` family, `masked`;
+* (iv)  closure: every modelled producer keeps the register file canonical, for every finite history;
+* (v)   ill-formed `(BITS, LIMBS)`: the `LIMBS` const assertion, and — from the source, regenerated on every
+        run — every public constant/constructor transitively mentions `Self::LIMBS` (guard graph).
+-/
 namespace Ruint.C04
-open Ruint
+open Ruint Ruint.Canon Ruint.History
 
-/-- `==`/`Hash` are functions of the limb array; canonical arrays are determined by their number. -/
+/-! ## (i) equality and hashing -/
+
+/-- derived `PartialEq` on canonical values is equality of numbers. -/
 theorem eq_iff_val_eq (bits : ℕ) (a b : List ℕ) (ha : Canon bits a) (hb : Canon bits b) :
     a = b ↔ val a = val b :=
   ⟨fun h => by rw [h], canon_ext bits a b ha hb⟩
+
+/-- the model of `==` used by the driver. -/
+theorem eq_model_spec (bits : ℕ) (a b : List ℕ) (ha : Canon bits a) (hb : Canon bits b) :
+    Cmp.eq a b = true ↔ val a = val b := by
+  unfold Cmp.eq
+  rw [beq_iff_eq]
+  exact eq_iff_val_eq bits a b ha hb
+
+/-- `Hash` (and anything else computed from the limb array — `==`, `DefaultHasher`, `HashMap` keys):
+    equal numbers give equal results. -/
+theorem hash_follows_value {α : Type} (f : List ℕ → α) (bits : ℕ) (a b : List ℕ)
+    (ha : Canon bits a) (hb : Canon bits b) (h : val a = val b) : f a = f b := by
+  rw [canon_ext bits a b ha hb h]
+
+/-- without canonicity the statement is false: two limb arrays for the number 1 at width 1 differ
+    (so a forgotten mask breaks `==`/`Hash`). -/
+theorem noncanonical_breaks_eq : ∃ a b : List ℕ, a ≠ b ∧ a.length = nlimbs 1 ∧ b.length = nlimbs 1
+    ∧ val a % 2 ^ 1 = val b % 2 ^ 1 :=
+  ⟨[1], [3], by decide, rfl, rfl, by decide⟩
+
+/-! ## (ii) ordering -/
+
+/-- `Ord::cmp` (reverse limb scan) orders canonical values as their numbers. -/
+theorem cmp_spec (bits : ℕ) (a b : List ℕ) (ha : Canon bits a) (hb : Canon bits b) :
+    Cmp.cmp a b = compare (val a) (val b) :=
+  Cmp.cmp_spec a b (by rw [ha.1, hb.1]) ha.2.1 hb.2.1
+
+/-- `<`, `<=`, `>`, `>=` -/
+theorem lt_le_spec (bits : ℕ) (a b : List ℕ) (ha : Canon bits a) (hb : Canon bits b) :
+    (Cmp.lt a b = true ↔ val a < val b) ∧ (Cmp.le a b = true ↔ val a ≤ val b)
+    ∧ (Cmp.gt a b = true ↔ val b < val a) ∧ (Cmp.ge a b = true ↔ val b ≤ val a) := by
+  have hl : a.length = b.length := by rw [ha.1, hb.1]
+  exact ⟨Cmp.lt_spec a b hl ha.2.1 hb.2.1, Cmp.le_spec a b hl ha.2.1 hb.2.1,
+    Cmp.gt_spec a b hl ha.2.1 hb.2.1, Cmp.ge_spec a b hl ha.2.1 hb.2.1⟩
+
+/-- `min` / `max`: canonical, with the numeric minimum / maximum. -/
+theorem min_max_spec (bits : ℕ) (a b : List ℕ) (ha : Canon bits a) (hb : Canon bits b) :
+    Canon bits (Cmp.min a b) ∧ val (Cmp.min a b) = Nat.min (val a) (val b)
+    ∧ Canon bits (Cmp.max a b) ∧ val (Cmp.max a b) = Nat.max (val a) (val b) := by
+  have hl : a.length = b.length := by rw [ha.1, hb.1]
+  obtain ⟨m1, m2⟩ := Cmp.min_spec a b hl ha.2.1 hb.2.1
+  obtain ⟨x1, x2⟩ := Cmp.max_spec a b hl ha.2.1 hb.2.1
+  refine ⟨?_, m2, ?_, x2⟩
+  · rcases m1 with h | h <;> rw [h] <;> assumption
+  · rcases x1 with h | h <;> rw [h] <;> assumption
+
+/-- `is_zero` -/
+theorem is_zero_spec (bits : ℕ) (a : List ℕ) (ha : Canon bits a) : Cmp.isZero a = true ↔ val a = 0 := by
+  unfold Cmp.isZero
+  rw [beq_iff_eq, ha.1]
+  have hz := zero_spec bits
+  unfold Canon.zero at hz
+  constructor
+  · intro h; rw [h]; exact hz.2
+  · intro h; exact canon_ext bits a _ ha hz.1 (by rw [h, hz.2])
+
+/-! ## (iii) constructors -/
+
+/-- `from_limbs`: returns the array iff it is canonical, panics on every other array. -/
+theorem from_limbs_spec (bits : ℕ) (l : List ℕ) (hlen : l.length = nlimbs bits) (hl : AllLt l) :
+    (Canon bits l → fromLimbs bits l = some l) ∧ (¬ Canon bits l → fromLimbs bits l = none)
+    ∧ (Canon bits l ↔ ¬ (shouldMask bits = true ∧ mask bits < top l)) :=
+  ⟨(fromLimbs_spec bits l hlen hl).1, (fromLimbs_spec bits l hlen hl).2, canon_iff_top bits l hlen hl⟩
+
+/-- `masked()` / `apply_mask()` / `from_limbs_unmasked`: canonical, value reduced mod `2^bits`
+    (this is also the model of the random generators: `fill limbs; mask`). -/
+theorem masked_canon (bits : ℕ) (raw : List ℕ) (hlen : raw.length = nlimbs bits) (hl : AllLt raw) :
+    Canon bits (masked bits raw) ∧ val (masked bits raw) = val raw % 2 ^ bits :=
+  masked_spec bits raw hlen hl
+
+/-- the limb-slice constructors: every variant returns a canonical value or rejects. -/
+theorem limbs_slice_constructors_spec (bits : ℕ) (sl : List ℕ) (hsl : AllLt sl) :
+    (∃ l o, overflowingFromLimbsSlice bits sl = some (l, o) ∧ Canon bits l
+      ∧ val l = val sl % 2 ^ bits ∧ (o = true ↔ 2 ^ bits ≤ val sl))
+    ∧ (2 ^ bits ≤ val sl → fromLimbsSlice bits sl = .panic ∧ checkedFromLimbsSlice bits sl = .none) :=
+  ⟨overflowingFromLimbsSlice_spec bits sl hsl,
+    fun h => ⟨((C07.from_limbs_slice_family_spec bits sl hsl).2 h).1,
+      ((C07.from_limbs_slice_family_spec bits sl hsl).2 h).2.1⟩⟩
+
+/-- the constants -/
+theorem constants_canon (bits : ℕ) :
+    (Canon bits (zero bits) ∧ val (zero bits) = 0)
+    ∧ (Canon bits (max bits) ∧ val (max bits) = 2 ^ bits - 1)
+    ∧ (∃ l, one bits = some l ∧ Canon bits l ∧ val l = 1 % 2 ^ bits) :=
+  ⟨zero_spec bits, max_spec bits, one_spec bits⟩
+
+/-! ## (iv) closure under histories -/
+
+/-- one operation keeps the register file canonical. -/
+theorem step_canon (bits : ℕ) (regs : Regs) (h : AllCanon bits regs) (op : Op) (hv : op.Valid) :
+    AllCanon bits (step bits regs op) :=
+  History.step_canon bits regs h op hv
+
+/-- **closure**: after any finite history of modelled safe operations on canonical registers, every
+    register is canonical. -/
+theorem run_canon (bits : ℕ) (hist : List Op) (regs : Regs) (h : AllCanon bits regs)
+    (hv : ∀ op ∈ hist, op.Valid) : AllCanon bits (run bits regs hist) := by
+  unfold run
+  induction hist generalizing regs with
+  | nil => exact h
+  | cons op ops ih =>
+    simp only [List.foldl_cons]
+    exact ih _ (History.step_canon bits regs h op (hv op (by simp))) (fun o ho => hv o (by simp [ho]))
+
+/-- hence `==`/`Hash`/`cmp` on any two registers after any history follow the numbers. -/
+theorem run_eq_cmp (bits : ℕ) (hist : List Op) (regs : Regs) (h : AllCanon bits regs)
+    (hv : ∀ op ∈ hist, op.Valid) (a b : List ℕ) (ha : a ∈ run bits regs hist)
+    (hb : b ∈ run bits regs hist) :
+    (a = b ↔ val a = val b) ∧ Cmp.cmp a b = compare (val a) (val b) := by
+  have hc := run_canon bits hist regs h hv
+  exact ⟨eq_iff_val_eq bits a b (hc a ha) (hc b hb), cmp_spec bits a b (hc a ha) (hc b hb)⟩
+
+/-! ## (v) ill-formed types -/
+
+/-- the associated const `Self::LIMBS` evaluates iff `LIMBS = nlimbs(BITS)`; for every other pair its
+    evaluation — forced by any body that mentions it — fails at compile time. -/
+theorem limbs_const_spec (bits limbs : ℕ) :
+    (limbs = nlimbs bits → limbsConst bits limbs = some (nlimbs bits))
+    ∧ (limbs ≠ nlimbs bits → limbsConst bits limbs = none) := by
+  unfold limbsConst
+  exact ⟨fun h => by simp [h], fun h => by simp [h]⟩
+
+/-- the probe pairs are ill-formed -/
+theorem probe_pairs_ill_formed :
+    limbsConst 64 2 = none ∧ limbsConst 65 1 = none ∧ limbsConst 0 1 = none
+    ∧ limbsConst 100 3 = none ∧ limbsConst 128 1 = none := by decide
+
+/-- **(G)** in the current source every public constant/constructor that yields a `Uint` without taking
+    one transitively mentions `Self::LIMBS` (graph regenerated from `src/` by `tools/props/c04.py`). -/
+theorem guard_graph_reaches :
+    ∀ p ∈ Gen.GuardGraph.publicProducers,
+      reaches Gen.GuardGraph.edges p Gen.GuardGraph.limbsAssert = true := by
+  decide +kernel
+
+/-- the checker really discriminates: in the pinned tree's graph (`masked` did not mention `Self::LIMBS`)
+    `MAX → from_limbs_unmasked → masked` did not reach the assertion. -/
+theorem guard_graph_detects_old_defect :
+    reaches [[], [2], [3], []] 1 0 = false ∧ reaches [[], [2], [3], [0]] 1 0 = true := by
+  decide +kernel
+
+/-! Non-vacuity -/
+example : Cmp.cmp [5, 1] [7, 0] = .gt ∧ Cmp.cmp [0, 1] [0, 1] = .eq := by decide +kernel
+example : (run 65 [[1, 0], [W - 1, 1]] [.wadd 0 0 1, .max 1, .wneg 1 1]) = [[0, 0], [1, 0]] := by
+  decide +kernel
 
 end Ruint.C04
